@@ -27,6 +27,7 @@ const (
 	evBad    = 'b' // frame the parser rejects after partially filling the slot
 	evReset  = 'r' // camera reset ("clear")
 	evSnap   = 's' // test-recording request (takes effect on the next frame)
+	evQuery  = 'q' // snapshot query (GetRecentFrame, as the D-Bus TakeSnapshot path does)
 )
 
 type fsmEvent struct {
@@ -341,6 +342,16 @@ func (r *fsmRun) step(ev fsmEvent) *stepRec {
 			r.mp.Reset(vCam{r.cfg.ResX, r.cfg.ResY, r.cfg.FPS})
 		case evSnap:
 			r.mp.StartSnapshot = true
+		case evQuery:
+			if _, f := r.mp.GetRecentFrame(); f != nil {
+				// the caller owns the copy and may do what it likes with it
+				f.Status.FrameCount = -12345
+				for y := range f.Pix {
+					for x := range f.Pix[y] {
+						f.Pix[y][x] = 0
+					}
+				}
+			}
 		}
 	}()
 	r.cur, r.curRec = nil, nil
